@@ -32,7 +32,8 @@ def run(ctx):
     vlib.k_tie(ctx, "adpcm_block_decoders", "%s %d %d" % (h, seed, 1500 if q else 60000), m,
                "WAV IMA ADPCM, AIFC ima4 and WAV MS ADPCM blocks decoded through the public API (one block per file, 1 and 2 channels, block sizes 8 .. 512): header step index "
                "0 / 82..88 / above the table / PRNG, predictors at the int16 extremes, code patterns all +max, all -max, alternating, zero, PRNG; MS: predictor bytes in and out "
-               "of range, scale factors 0, 1, 16, 0x7FFF, 0x8000, 0xFFFF; every decoded short against the extracted model", key="adpcm")
+               "of range, scale factors 0, 1, 16, 0x7FFF, 0x8000, 0xFFFF; every tenth case a file of several blocks written by the library's encoder (block headers continue the "
+               "state the previous block ended in), code bytes partly overwritten, decoded block by block by the model; every decoded short against the extracted model", key="adpcm")
     ctx.trusted += ["IMA ADPCM step / index tables and the decoder recurrence transcribed from the IMA Digital Audio Focus recommendation into Adpcm.v (ref_step_table, ref_index_table, ima_diff)",
                     "Microsoft ADPCM is modelled as coded (prediction by arithmetic shift, scale factor and history in 16-bit cells): tied by K, with range theorems, not compared with an independent definition"]
     ctx.trusted += ["G.711 definition transcribed from the Recommendation's segment tables into G711.v (ulaw_expand, ulaw_compress, alaw_expand, alaw_compress)",
